@@ -684,9 +684,11 @@ Record wview := View {
   v_fits : size -> bool                              (* no widget on the way hidden or clipped *)
 }.
 
+(* the view of a child that does not exist (Frame without header / footer): nothing is drawn; a mouse event
+   routed to it is an AttributeError in Python (None.selectable()), reported as a hit on the pseudo leaf -2 *)
 Definition dummy_view (w : widget) : wview :=
   View dummy_info (fun _ => []) (fun _ _ => []) (fun _ _ => None) (fun _ => CNone)
-       (fun _ _ _ _ => None) (fun _ _ _ => MRes false w None) (fun _ => false).
+       (fun _ _ _ _ => Some (Hit (-2) 0 0 false (0, None))) (fun _ _ _ => MRes false w None) (fun _ => false).
 Definition nth_view (d : widget) (l : list wview) (i : Z) : wview :=
   match nthz l i with Some v => v | None => dummy_view d end.
 
@@ -1057,7 +1059,8 @@ Definition enc_rect (r : rect) : list Z :=
 Definition enc_hit (o : option hit) : list Z :=
   match o with
   | None => [0]
-  | Some h => if h_id h <? 0 then [0] else [1; h_id h; h_col h; h_row h; enc_bool (h_focus h)] ++ enc_size (h_size h)
+  | Some h => if h_id h =? -2 then [2]
+              else if h_id h <? 0 then [0] else [1; h_id h; h_col h; h_row h; enc_bool (h_focus h)] ++ enc_size (h_size h)
   end.
 Fixpoint zrange (n : nat) (from : Z) : list Z := match n with O => [] | S k => from :: zrange k (from + 1) end.
 Fixpoint dec_pairs (n : nat) (l : list Z) : list (Z * Z) * list Z :=
